@@ -227,9 +227,14 @@ def run(prog: Program, rep, tier="quick"):
         g = cfg_of(prog, f)
         for i, n in g.nodes.items():
             for c in node_calls(n):
-                if dotted(c.func) == "ord" and c.args and isinstance(c.args[0], ast.Subscript) and dotted(c.args[0].value) == "delta":
-                    # index variable of the slice
-                    sl = c.args[0].slice
+                pass
+            for sub in [x for e in node_exprs(n) for x in _walk_shallow(e)
+                        if isinstance(x, ast.Subscript) and isinstance(x.ctx, ast.Load) and dotted(x.value) == "delta"]:
+                if True:
+                    c = sub
+                    sl = sub.slice
+                    if isinstance(sl, ast.Slice) and sl.upper is None:
+                        continue        # open-ended slice used in an error message, cannot raise
                     lo = sl.lower if isinstance(sl, ast.Slice) else sl
                     idx_names = {x.id for x in ast.walk(lo) if isinstance(x, ast.Name)} if lo is not None else set()
                     tests = {}
@@ -240,12 +245,13 @@ def run(prog: Program, rep, tier="quick"):
                             left_is_idx = idx_names & {x.id for x in ast.walk(tn.ast.left) if isinstance(x, ast.Name)}
                             if isinstance(op, (ast.Lt,)) and left_is_idx:
                                 tests[j] = "true"       # index < delta_length: in-bounds side
-                            elif isinstance(op, (ast.GtE,)) and left_is_idx:
-                                tests[j] = "false"      # index >= delta_length raises on true
+                            elif isinstance(op, (ast.GtE, ast.Gt)) and left_is_idx:
+                                tests[j] = "false"      # index (+ n) >= / > delta_length raises on true
                     r = reach(g, [g.entry], include_srcs=True, edge_ok=lambda a, b, l: not (a in tests and l == tests[a]))
                     ok = bool(tests) and i not in r
                     rep.ob("R03.1", PACK, f.qual, f"{norm(c, 40)} is dominated by a bound test on its index", ok,
-                           "ord() of an empty slice raises TypeError on a truncated delta", c.lineno)
+                           "a byte of the delta is read without a dominating bound test: a truncated delta raises "
+                           "TypeError/IndexError instead of ApplyDeltaError", c.lineno)
     # ---- R03.2 python
     g = cfg_of(prog, ad)
     rets = [i for i, n in g.nodes.items() if n.kind == "stmt" and isinstance(n.ast, ast.Return)]
@@ -286,6 +292,13 @@ def run(prog: Program, rep, tier="quick"):
     rep.ob("R03.5", RPACK, "create_delta_internal", "Rust encoder caps literal inserts at 127", t.count("remaining . min ( 127 )") >= 2, "", ci.line)
     rep.ob("R03.5", RPACK, "create_delta_internal", "Rust encoder emits both size varints first",
            t.find("delta_encode_size ( base_buf . len ( ) )") < t.find("delta_encode_size ( target_buf . len ( ) )") < t.find("capture_diff_slices"), "", ci.line)
+    # the copy-splitting loops of the twin encoders advance the same way (SIBLINGS-AGREE on the loop updates)
+    upd = sorted(norm(x) for w_ in ast.walk(cd.node) if isinstance(w_, ast.While) and "copy_len" in norm(w_.test)
+                 for x in w_.body if isinstance(x, (ast.AugAssign, ast.Assign)) and "to_copy" in norm(x) and not norm(x).startswith("to_copy"))
+    rs_upd = "copy_start += to_copy ; copy_len -= to_copy ;" in t
+    rep.ob("R03.5", PACK, cd.qual, "copy-splitting loop advances start by and shrinks length by the amount copied, like the Rust twin",
+           upd == ["copy_len -= to_copy", "copy_start += to_copy"] and rs_upd,
+           f"python loop updates {upd}; rust has `copy_start += to_copy; copy_len -= to_copy`: {rs_upd}", cd.node.lineno)
     eco_py = norm(m.funcs["_encode_copy_operation"].node, 10000)
     eco_rs = rf.fns["encode_copy_operation"].text()
     rep.ob("R03.5", PACK, "_encode_copy_operation", "copy op: 4 offset bytes, 2 length bytes, flag bits 0-3 and 4-5 in both encoders",
